@@ -142,6 +142,11 @@ def case_surgery(B, cfg):
     var = cfg['var']
     vanilla = m._vanilla_model.clone()
     try:
+        if cfg.get('first_var'):
+            # the same model was dosed into another state of the same
+            # compartment before: only the last administration counts
+            m.set_administration(comp, amount_var=cfg['first_var'],
+                                 direct=cfg['direct'])
         m.set_administration(comp, amount_var=var, direct=cfg['direct'])
     except Exception as e:
         B.fact('no-exception:set_administration', False, repr(e))
@@ -397,6 +402,11 @@ def jobs(tier):
                 out.append(('surgery', 'case_surgery', dict(
                     model='generated', spec=spec, var=s, direct=direct),
                     FACADE))
+                for s0 in spec['states']:
+                    if s0 != s:
+                        out.append(('surgery', 'case_surgery', dict(
+                            model='generated', spec=spec, var=s,
+                            first_var=s0, direct=direct), FACADE))
     for mult in (0, 1, 2, 3):
         out.append(('table', 'case_table', dict(
             multiplier=mult, periodic=True), FACADE))
@@ -408,7 +418,8 @@ def jobs(tier):
 BOUNDS = dict(
     quick='num in {None,0,1,2,3}, with/without period, direct and indirect '
           'route; surgery on every dosable state of 2 library models and of '
-          'generated models with 1..2 states; regimen tables for multiplier '
+          'generated models with 1..2 states (also after an earlier '
+          'administration into the other state); regimen tables for multiplier '
           '0..3 with at most 4 doses before final_time (floor forked up to 5); '
           'dataset regimens: 2-3 individuals, every pair of row kinds {dose '
           'with duration, bolus, dose without time, duration without dose, '
